@@ -76,7 +76,8 @@ func JS(ops []Op) string {
 		case "set":
 			fmt.Fprintf(&b, "_.bindings[%s] = %s;\n", js(o.K), js(o.V))
 		case "setfrom":
-			fmt.Fprintf(&b, "if (%s in _.bindings) { _.bindings[%s] = _.bindings[%s]; }\n", js(o.K2), js(o.K), js(o.K2))
+			// (a copy, as in the model and in the native rendering: the two bindings must not share one object)
+			fmt.Fprintf(&b, "if (%s in _.bindings) { _.bindings[%s] = JSON.parse(JSON.stringify(_.bindings[%s])); }\n", js(o.K2), js(o.K), js(o.K2))
 		case "del":
 			fmt.Fprintf(&b, "delete _.bindings[%s];\n", js(o.K))
 		case "mutnested":
